@@ -1189,6 +1189,33 @@ fn main() {
                 writeln!(w, "{}", ast_sexpr(&str_of(&v))).unwrap();
             }
         }
+        "match" => {
+            // {"p": pattern cps, "hs": [haystack cps...]} -> whole-haystack match and leftmost-first find (char offsets), PikeVM
+            for l in stdin.lock().lines() {
+                let v: Value = serde_json::from_str(&l.unwrap()).unwrap();
+                let p = str_of(&v["p"]);
+                let mut full = vec![];
+                let mut find = vec![];
+                let vm = PikeVM::new(&p);
+                let vmf = PikeVM::new(&anchored_whole(&p));
+                for h in v["hs"].as_array().unwrap() {
+                    let hs = str_of(h);
+                    match (&vm, &vmf) {
+                        (Ok(re), Ok(ref_)) => {
+                            let mut c = ref_.create_cache();
+                            full.push(json!(ref_.is_match(&mut c, &hs)));
+                            let mut c2 = re.create_cache();
+                            find.push(match re.find(&mut c2, &hs) {
+                                Some(mm) => json!([hs[..mm.start()].chars().count(), hs[..mm.end()].chars().count()]),
+                                None => Value::Null,
+                            });
+                        }
+                        _ => { full.push(Value::Null); find.push(Value::Null); }
+                    }
+                }
+                writeln!(w, "{}", json!({"full": full, "find": find})).unwrap();
+            }
+        }
         "setters" => {
             writeln!(w, "{}", setters_dump()).unwrap();
         }
